@@ -140,6 +140,20 @@ CHECKS = {
         note="Coq kernel; extraction/driver; harness recording the random module's draws; float results as exact decimals; no axioms",
         technique="Coq proof over an oracle-stream model + differential correspondence with recorded draws",
         design="4 C19"),
+    "C09": dict(
+        text=("Theorems over the reader models: FaMa XML — for every reference model and EVERY combination of the format's "
+              "syntactic freedom (tag letter case, cardinality element before or after the children, relation name attributes, "
+              "binary vs set relation for a single child) the reader returns exactly the reference model; FeatureIDE — the reader "
+              "is invariant under graphics / description elements, mandatory=\"false\" / abstract=\"false\", attribute order, "
+              "reads n-ary conj / disj as the left fold, and reads the canonical document of a model as that model (also with no "
+              "constraints section). PARTIAL for AFM and Glencoe: their readers are Gallina functions of the parse tree / JSON "
+              "value tied to the code by suites R-afm-3p / R-glencoe-3p with reference emitters, and the denotation there is "
+              "decided by the oracle, not by a theorem. The shipped corpus is read by model and implementation and compared "
+              "with Betty's own statistics."),
+        note=("Coq kernel; extraction/driver; harness reference emitters (the reading of the four formats); external XML / JSON / "
+              "ANTLR parsers; no axioms"),
+        technique="Coq proof over hand-written Gallina reader models and a Gallina reference emitter + differential correspondence",
+        design="4 C09"),
 }
 
 NOT_YET = {
